@@ -151,9 +151,6 @@ static struct {
         struct cat_descriptor desc;
         struct cat_command_group grp[2];
         struct cat_command_group *grps[2];
-        struct cat_command cmd[M];
-        struct cat_variable var[2];
-        struct cat_variable novar[1]; /* commands without variables point here with var_num = 0 */
         struct cat_io_interface io;
         int k;                       /* current service step */
         int sched_r, sched_w;        /* runtime switches: honour S.sr / S.sw */
@@ -176,6 +173,12 @@ static struct {
         int last_unit_lead_crlf, last_unit_trail_crlf;
         int reads_attempted, writes_attempted;
 } W;
+/* descriptor objects that the library keeps pointers to are separate static objects, not members of W: a pointer that has
+ * travelled through the event ring is a (object, symbolic offset) pair for the solver, and dereferencing it reads the whole
+ * object it points into - which must therefore be small */
+static struct cat_command G_cmd[M];
+static struct cat_variable G_var[2];
+static struct cat_variable G_novar[1]; /* commands without variables point here with var_num = 0 */
 static char G_names[M][K + 1];
 static uint8_t G_buf[CAPB_MAX];
 static uint8_t G_ubuf[UB + 1];
@@ -190,6 +193,9 @@ static size_t G_rsize, G_rmax;
 static void world_reset(void)
 {
         WORLD_ZERO(W);
+        WORLD_ZERO(G_cmd);
+        WORLD_ZERO(G_var);
+        WORLD_ZERO(G_novar);
         WORLD_ZERO(G_names);
         WORLD_ZERO(G_buf);
         WORLD_ZERO(G_ubuf);
@@ -314,7 +320,7 @@ static int io_write(char ch)
 /* ---- handlers --------------------------------------------------------------------------- */
 static void hlog(const struct cat_command *cmd, int kind)
 {
-        unsigned ci = (unsigned)(cmd - W.cmd);
+        unsigned ci = (unsigned)(cmd - G_cmd);
         if (W.hl_n < NH) { W.hl_cmd[W.hl_n] = (unsigned char)ci; W.hl_kind[W.hl_n] = (unsigned char)kind; }
         W.hl_n++;
         ON_HANDLER(ci, kind);
@@ -361,7 +367,7 @@ static cat_return_state h_read(const struct cat_command *cmd, uint8_t *data, siz
 {
         hlog(cmd, CAT_CMD_TYPE_READ);
         rcapture(data, data_size, max_data_size);
-        ON_RT_HANDLER((unsigned)(cmd - W.cmd), CAT_CMD_TYPE_READ, data, data_size, max_data_size);
+        ON_RT_HANDLER((unsigned)(cmd - G_cmd), CAT_CMD_TYPE_READ, data, data_size, max_data_size);
         return next_code();
 }
 static cat_return_state h_run(const struct cat_command *cmd)
@@ -373,22 +379,39 @@ static cat_return_state h_test(const struct cat_command *cmd, uint8_t *data, siz
 {
         hlog(cmd, CAT_CMD_TYPE_TEST);
         rcapture(data, data_size, max_data_size);
-        ON_RT_HANDLER((unsigned)(cmd - W.cmd), CAT_CMD_TYPE_TEST, data, data_size, max_data_size);
+        ON_RT_HANDLER((unsigned)(cmd - G_cmd), CAT_CMD_TYPE_TEST, data, data_size, max_data_size);
         return next_code();
 }
 
 static int v_write(const struct cat_variable *var, const size_t write_size)
 {
-        unsigned vi = (unsigned)(var - W.var);
+        unsigned vi = (unsigned)(var - G_var);
         if (vi < 2) { W.vw_n[vi]++; W.vw_size[vi] = write_size; return S.vrc[vi] ? 1 : 0; }
         return 0;
 }
 static int v_read(const struct cat_variable *var)
 {
-        unsigned vi = (unsigned)(var - W.var);
+        unsigned vi = (unsigned)(var - G_var);
         if (vi < 2) { W.vr_n[vi]++; return S.vrc[vi] ? 1 : 0; }
         return 0;
 }
+
+#ifdef EVENT_CODE
+/* handlers of the event commands return a code that is a syntactic constant: symbolic execution follows every case of a
+ * switch on a symbolic value, feasible or not, and the HOLD case of the event loops overwrites the command FSM state */
+static cat_return_state h_read_evt(const struct cat_command *cmd, uint8_t *data, size_t *data_size, const size_t max_data_size)
+{
+        hlog(cmd, CAT_CMD_TYPE_READ);
+        rcapture(data, data_size, max_data_size);
+        return (cat_return_state)(EVENT_CODE);
+}
+static cat_return_state h_test_evt(const struct cat_command *cmd, uint8_t *data, size_t *data_size, const size_t max_data_size)
+{
+        hlog(cmd, CAT_CMD_TYPE_TEST);
+        rcapture(data, data_size, max_data_size);
+        return (cat_return_state)(EVENT_CODE);
+}
+#endif
 
 /* ---- table -------------------------------------------------------------------------------- */
 static int cmd_enabled(unsigned i)
@@ -397,9 +420,12 @@ static int cmd_enabled(unsigned i)
         return !(S.fl[i] & F_DISABLE) && !S.gd[g];
 }
 
+/* total working-buffer size: a compile-time constant when the job fixes it (CAPB_MIN == CAPB_MAX) - the event half of a
+ * shared buffer then starts at a concrete offset, which matters as soon as the event FSM formats into it */
+#define CAPB_VALUE ((CAPB_MIN == CAPB_MAX) ? (unsigned)(CAPB_MIN) : (unsigned)S.capb)
 static unsigned cmd_half_cap(void)
 {
-        return SEPARATE_UBUF ? S.capb : (unsigned)(S.capb >> 1);
+        return SEPARATE_UBUF ? CAPB_VALUE : (unsigned)(CAPB_VALUE >> 1);
 }
 
 static void world_assume(void)
@@ -445,41 +471,47 @@ static void world_build(void)
                 for (j = 0; j < K; j++)
                         G_names[i][j] = (j < S.nl[i]) ? (char)S.nm[i][j] : 0;
                 G_names[i][K] = 0;
-                W.cmd[i].name = G_names[i];
-                W.cmd[i].write = (S.hm[i] & H_WRITE) ? h_write : NULL;
-                W.cmd[i].read = (S.hm[i] & H_READ) ? h_read : NULL;
-                W.cmd[i].run = (S.hm[i] & H_RUN) ? h_run : NULL;
-                W.cmd[i].test = (S.hm[i] & H_TEST) ? h_test : NULL;
-                W.cmd[i].disable = (S.fl[i] & F_DISABLE) != 0;
-                W.cmd[i].only_test = (S.fl[i] & F_ONLY_TEST) != 0;
-                W.cmd[i].implicit_write = (S.fl[i] & F_IMPLICIT) != 0;
-                W.cmd[i].need_all_vars = (S.fl[i] & F_NEED_ALL) != 0;
+                G_cmd[i].name = G_names[i];
+                G_cmd[i].write = (S.hm[i] & H_WRITE) ? h_write : NULL;
+                G_cmd[i].read = (S.hm[i] & H_READ) ? h_read : NULL;
+                G_cmd[i].run = (S.hm[i] & H_RUN) ? h_run : NULL;
+                G_cmd[i].test = (S.hm[i] & H_TEST) ? h_test : NULL;
+#ifdef EVENT_CODE
+                if (i >= EVENT_FIRST_CMD) {
+                        G_cmd[i].read = (S.hm[i] & H_READ) ? h_read_evt : NULL;
+                        G_cmd[i].test = (S.hm[i] & H_TEST) ? h_test_evt : NULL;
+                }
+#endif
+                G_cmd[i].disable = (S.fl[i] & F_DISABLE) != 0;
+                G_cmd[i].only_test = (S.fl[i] & F_ONLY_TEST) != 0;
+                G_cmd[i].implicit_write = (S.fl[i] & F_IMPLICIT) != 0;
+                G_cmd[i].need_all_vars = (S.fl[i] & F_NEED_ALL) != 0;
                 /* "no variables" is expressed as var_num == 0 on a valid array (a NULL var pointer makes
                  * the symbolic execution of every var-> access explore an invalid object) */
-                W.cmd[i].var = W.novar;
-                W.cmd[i].var_num = 0;
+                G_cmd[i].var = G_novar;
+                G_cmd[i].var_num = 0;
         }
-        vf_cmd_base = W.cmd;
+        vf_cmd_base = G_cmd;
         vf_cmd_n = M;
         /* variables: command 1 owns a uint8, command 2 an int8 (when they exist) */
-        W.var[0].type = CAT_VAR_UINT_DEC; W.var[0].data = &G_v0; W.var[0].data_size = 1; W.var[0].access = (cat_var_access)S.vacc[0]; W.var[0].name = "u";
-        W.var[1].type = CAT_VAR_INT_DEC; W.var[1].data = &G_v1; W.var[1].data_size = 1; W.var[1].access = (cat_var_access)S.vacc[1]; W.var[1].name = "i";
-        W.var[0].write = (S.vcb[0] & 1) ? v_write : NULL; W.var[0].read = (S.vcb[0] & 2) ? v_read : NULL;
-        W.var[1].write = (S.vcb[1] & 1) ? v_write : NULL; W.var[1].read = (S.vcb[1] & 2) ? v_read : NULL;
+        G_var[0].type = CAT_VAR_UINT_DEC; G_var[0].data = &G_v0; G_var[0].data_size = 1; G_var[0].access = (cat_var_access)S.vacc[0]; G_var[0].name = "u";
+        G_var[1].type = CAT_VAR_INT_DEC; G_var[1].data = &G_v1; G_var[1].data_size = 1; G_var[1].access = (cat_var_access)S.vacc[1]; G_var[1].name = "i";
+        G_var[0].write = (S.vcb[0] & 1) ? v_write : NULL; G_var[0].read = (S.vcb[0] & 2) ? v_read : NULL;
+        G_var[1].write = (S.vcb[1] & 1) ? v_write : NULL; G_var[1].read = (S.vcb[1] & 2) ? v_read : NULL;
         G_v0 = S.vinit[0];
         G_v1 = S.vinit[1];
 #if NVAR >= 1
-        if (M > 1) { W.cmd[1].var = &W.var[0]; W.cmd[1].var_num = 1; }
+        if (M > 1) { G_cmd[1].var = &G_var[0]; G_cmd[1].var_num = 1; }
 #endif
 #if NVAR >= 2
-        if (M > 2) { W.cmd[2].var = &W.var[1]; W.cmd[2].var_num = 1; }
+        if (M > 2) { G_cmd[2].var = &G_var[1]; G_cmd[2].var_num = 1; }
 #endif
-        W.grp[0].cmd = &W.cmd[0];
+        W.grp[0].cmd = &G_cmd[0];
         W.grp[0].cmd_num = (G == 2) ? G1_START : M;
         W.grp[0].disable = S.gd[0] != 0;
         W.grps[0] = &W.grp[0];
         if (G == 2) {
-                W.grp[1].cmd = &W.cmd[G1_START];
+                W.grp[1].cmd = &G_cmd[G1_START];
                 W.grp[1].cmd_num = M - G1_START;
                 W.grp[1].disable = S.gd[1] != 0;
                 W.grps[1] = &W.grp[1];
@@ -487,7 +519,7 @@ static void world_build(void)
         W.desc.cmd_group = W.grps;
         W.desc.cmd_group_num = G;
         W.desc.buf = G_buf;
-        W.desc.buf_size = S.capb;
+        W.desc.buf_size = CAPB_VALUE;
 #if SEPARATE_UBUF
         W.desc.unsolicited_buf = G_ubuf;
         W.desc.unsolicited_buf_size = UB;
@@ -511,7 +543,7 @@ static void world_junk_idle(void)
         W.at.hold_exit_status = (int)(signed char)S.jk[21];
         W.at.write_state = (int)S.jk[22];
         W.at.write_state_after = (cat_state)(signed char)S.jk[23];
-        W.at.var = (S.jk[24] & 1) ? &W.var[S.jk[24] >> 7] : NULL;
+        W.at.var = (S.jk[24] & 1) ? &G_var[S.jk[24] >> 7] : NULL;
         W.at.write_buf = (S.jk[25] & 1) ? (const char *)G_buf : NULL;
         for (i = 0; i < CAPB_MAX; i++)
                 G_buf[i] = S.jbuf[i];
